@@ -32,13 +32,13 @@ def gen_cases(ctx):
                 n = r.choice([6, 3 * p + 5]) if gi < len(grid) else min(2 * p + 30, 700)
                 use_bars = ind in NO_SCALAR or (ind in ("FAST", "SLOW") and rep % 2 == 1)
                 if use_bars:
-                    st = rot.pick((ind, "b"), ["walk", "segments", "gaps", "grid"])
+                    st = rot.pick((ind, "b"), ["walk", "segments", "gaps", "grid", "ulpbars"])
                     bars = bar_stream(r, n, st, p=p)
                     if st == "grid":
                         bars = [(b[0], b[1], b[2], b[3], b[4]) for b in bars]
                     feeds = [("b", 0) + b for b in bars]
                 else:
-                    st = rot.pick((ind, "n"), ["walk", "ties", "periodic", "pgrid", "flatafter", "segments", "uniform"])
+                    st = rot.pick((ind, "n"), ["walk", "ties", "periodic", "pgrid", "flatafter", "segments", "uniform", "ulps"])
                     feeds = [("n", 0, x) for x in scalar_stream(r, n, st, p=p, positive=True)]
                 cases.append(Case("%s_g%d_%d" % (ind, gi, rep), [new_op(0, ind, pr)] + feeds, dump=(0,) if p <= 64 else (),
                                   meta={"ind": ind, "params": pr, "n": n, "style": st}))
@@ -51,6 +51,10 @@ def nontrivial(c):
 
 
 def t2_select(c):
+    # moves of one unit in the last place: the direction tests of MFI / OBV / RSI and the window extremes of the stochastics are
+    # discontinuous there (the float typical price may tie where the exact one moves), i.e. not well-conditioned: T1 only
+    if c.meta.get("style") in ("ulps", "ulpbars"):
+        return False
     if c.meta["ind"] in ("RSI", "PPO"):      # exact EMA: denominators grow like (n+1)^t
         return c.meta["n"] <= 40
     return c.meta["ind"] not in ("ER", "SLOW") and c.meta["n"] <= 120
